@@ -240,7 +240,7 @@ def run(rep, tier, only=None):
     rep.bounds = {"edge shapes": sorted(SHAPES), "nested decorator ident": "symbolic lower-case word of length 2, 5, 6 or 10 (covers every language name and unknown words)",
                   "identifiers": "class words up to length %d over {lower, upper, _, é} at field / variant / type / enum / const position x 8 rename_all rules" % (2 if tier == "quick" else 3),
                   "back ends": "every accepted shape is generated with all six languages"}
-    rep.outside = ["the parallel walker, threads and the process exit status (the cause - a panic inside parse or a back end - is what is decided)", "unreadable files / non-UTF-8 input", "syn's own lexer"]
+    rep.outside = ["thread interleavings of the parallel walker (only the channel protocol in the control-flow graph of parallel_parse is decided) and the process exit status (the cause - a panic inside parse or a back end - is what is decided)", "unreadable files / non-UTF-8 input", "syn's own lexer"]
     rep.assumptions = ["step budget 5M MIR steps per path: exhausting it is reported as divergence and replayed natively"]
     reported = set()
     for gname, fn, cases in (("shapes", "case_shape", shape_cases), ("identifiers", "case_ident", ident_cases)):
@@ -284,11 +284,17 @@ def run(rep, tier, only=None):
                 else:
                     rep.inconc("engine mismatch: %s on `%s` (%s): interpreter says %s (%s), real library returns normally" % (v["stage"], src.replace("\n", " "), case, v["kind"], v["msg"]))
     nat.close()
+    if not only or "cli" in only:
+        from checks.c07cli import run_cli_half
+        run_cli_half(rep, tier)
     rep.extra["explore_s"] = round(time.time() - t0, 1)
 
 
 def replay(case):
     c = case["case"]
+    if c.get("cli_protocol"):
+        from checks.c07cli import replay_cli
+        return replay_cli(c['cli_protocol'])
     rep = Replayer()
     crashed, raw = native(rep, c["source"], c.get("multi_file", False), c["stage"])
     rep.close()
